@@ -5,7 +5,8 @@ import PedVerif.Spec.Switch
 Property theorems only.  `isEnabledE`, `enableWrites`, `disableWrites` and the decorator table `rows` are what the
 translator read from the source (`PedVerif.Gen.Switch`), so the proofs below are re-checked against the code as it
 is now: reading the switch inside the per-call wrapper, defaulting to "disabled" for an unset variable, returning
-anything but the received parameter when disabled, or touching the target on the way make them fail.
+anything but the received parameter when disabled, touching the target on the way, or keeping the per-member decorator of a
+class to apply it later (on attribute access) instead of while the class is decorated make them fail.
 -/
 namespace PedVerif.Switch
 open PedVerif.Gen.Switch
@@ -51,13 +52,13 @@ example : claim (some "0") = some false ∧ claim none = some true ∧ claim (so
 
 /-- a row honours the switch the way the property wants: consulted in the function that receives the target before
     anything touches it, the test is true exactly when switched off, and then the very parameter received comes back through
-    hops that hand it on untouched -/
+    hops that hand it on untouched; the members of a class are decorated then and there -/
 def honours (r : Row) : Bool :=
   r.readAt == .decoration && r.untouchedBefore && r.guardIfDisabled && !r.guardIfEnabled && r.returnsReceived && r.passThrough
-    && !r.wrapperAlsoReads
+    && !r.wrapperAlsoReads && r.membersEager
 
 /-- every generated row honours the switch (fails when `is_enabled()` moves into a wrapper, the test is inverted,
-    `return f` becomes `return wrapper`, …) -/
+    `return f` becomes `return wrapper`, a member decorator is stored in a descriptor and applied on first access, …) -/
 theorem rows_honour : ∀ r ∈ rows, honours r = true := by decide
 
 /-- all seven decorators of the property are in the generated table -/
@@ -72,13 +73,13 @@ theorem rows_cover (d : Deco) : ∃ r, lookup d.name = some r ∧ r ∈ rows := 
 theorem honours_fn (r : Row) (h : honours r = true) (enF : Option Bool) (hasDoc : Bool) :
     applyFnRow r enF false hasDoc = .ok true true .plain := by
   simp only [honours, Bool.and_eq_true, beq_iff_eq, Bool.not_eq_true'] at h
-  obtain ⟨⟨⟨⟨⟨⟨h1, h2⟩, h3⟩, _⟩, h5⟩, h6⟩, _⟩ := h
+  obtain ⟨⟨⟨⟨⟨⟨⟨h1, h2⟩, h3⟩, _⟩, h5⟩, h6⟩, _⟩, _⟩ := h
   simp [applyFnRow, h1, guardFires, h3, early, h5, h2, h6]
 
 theorem honours_class (r : Row) (h : honours r = true) (arg : String) (enF : Option Bool) (hasDoc : Bool) :
     applyClassRow r arg enF false hasDoc = .ok true true .plain := by
   simp only [honours, Bool.and_eq_true, beq_iff_eq, Bool.not_eq_true'] at h
-  obtain ⟨⟨⟨⟨⟨⟨h1, h2⟩, h3⟩, _⟩, h5⟩, h6⟩, _⟩ := h
+  obtain ⟨⟨⟨⟨⟨⟨⟨h1, h2⟩, h3⟩, _⟩, h5⟩, h6⟩, _⟩, _⟩ := h
   simp [applyClassRow, h1, guardFires, h3, early, h5, h2, h6]
 
 /-- **disabled ⇒ identity**, for all seven decorators, functions and classes, with or without docstrings, however the
@@ -93,7 +94,7 @@ theorem disabled_is_identity (d : Deco) (t : Target) (enF : Option Bool) (hk : d
   · exact honours_class r hh _ _ _
   · exact honours_fn r hh _ _
 
-example : decoOut .pedanticClassDoc ⟨true, false⟩ none false = .ok true true .plain := by decide
+example : decoOut .pedanticClassDoc ⟨true, false, true⟩ none false = .ok true true .plain := by decide
 
 /-- **enabled ⇒ they check**: a missing required docstring is rejected at decoration; otherwise a function decorator
     yields a new object, a class decorator the class itself with replaced members, and in both cases later calls are
@@ -101,14 +102,14 @@ example : decoOut .pedanticClassDoc ⟨true, false⟩ none false = .ok true true
 theorem enabled_checks (d : Deco) (t : Target) (enF : Option Bool) (hk : d.onClass = t.isClass) :
     decoOut d t enF true =
       if d.requiresDoc && !t.hasDoc then .raised else .ok d.onClass (!d.onClass) (.frozen d.effect) := by
-  obtain ⟨c, hd⟩ := t
+  obtain ⟨c, hd, fu⟩ := t
   cases d with
   | forAll i => cases i <;> cases c <;> cases hd <;> first | rfl | cases hk
   | _ => cases c <;> cases hd <;> first | rfl | cases hk
 
-example : decoOut .pedantic ⟨false, true⟩ none true = .ok false true (.frozen .checks) := by decide
-example : decoOut .traceClass ⟨true, false⟩ none true = .ok true false (.frozen .prints) := by decide
-example : decoOut (.forAll .pedanticDoc) ⟨true, false⟩ none true = .raised := by decide
+example : decoOut .pedantic ⟨false, true, false⟩ none true = .ok false true (.frozen .checks) := by decide
+example : decoOut .traceClass ⟨true, false, false⟩ none true = .ok true false (.frozen .prints) := by decide
+example : decoOut (.forAll .pedanticDoc) ⟨true, false, true⟩ none true = .raised := by decide
 
 /-- the outcome of a decoration in closed form: a function of the switch value *at that moment* only -/
 def closed (d : Deco) (t : Target) (en : Bool) : DecoOut :=
@@ -161,6 +162,24 @@ theorem applyNow_handles (s : St) (k : Nat) (t : Target) : ∃ m, (applyNow s k 
   · exact finish_handles s _
   · split <;> exact finish_handles s _
 
+/-- creating a sub class adds one handle and one target and changes nothing else -/
+theorem subclass_fields (s : St) (h : Nat) : ∃ m t, (step s (.subclass h)).1.handles = s.handles ++ [m] ∧
+    (step s (.subclass h)).1.targets = s.targets ++ [t] ∧ (step s (.subclass h)).1.factories = s.factories ∧
+    (step s (.subclass h)).1.env = s.env := by
+  simp only [step]
+  split
+  · split
+    · split <;> exact ⟨_, _, rfl, rfl, rfl, rfl⟩
+    · exact ⟨_, _, rfl, rfl, rfl, rfl⟩
+  · exact ⟨_, _, rfl, rfl, rfl, rfl⟩
+
+/-- reaching a member changes nothing: no per-owner cache, no decoration on first access -/
+theorem callm_state (s : St) (h : Nat) (m : Member) (v : Via) (k : CallKind) : (step s (.callm h m v k)).1 = s := by
+  simp only [step]
+  split
+  · split <;> rfl
+  · rfl
+
 /-- no operation ever rewrites an existing handle: the table only grows — decorating the same function object again
     included (`redecorate` / `reapply` add a handle, they do not touch the ones made from that object before) -/
 theorem step_handles_prefix (s : St) (op : Op) : ∃ extra, (step s op).1.handles = s.handles ++ extra := by
@@ -183,6 +202,8 @@ theorem step_handles_prefix (s : St) (op : Op) : ∃ extra, (step s op).1.handle
     · obtain ⟨m, hm⟩ := finish_handles s .noRow; exact ⟨[m], by simp [hm]⟩
     · rename_i t _; obtain ⟨m, hm⟩ := applyNow_handles s k t; exact ⟨[m], by simp [hm]⟩
   | call h k => exact ⟨[], by simp only [step]; split <;> simp⟩
+  | subclass h => obtain ⟨m, t, hm, _⟩ := subclass_fields s h; exact ⟨[m], hm⟩
+  | callm h m v k => exact ⟨[], by simp [callm_state]⟩
 
 theorem exec_handles_prefix (s : St) (ops : List Op) : ∃ extra, (exec s ops).handles = s.handles ++ extra := by
   induction ops generalizing s with
@@ -293,6 +314,8 @@ theorem step_factories_prefix (s : St) (op : Op) : ∃ extra, (step s op).1.fact
   | redecorate d h => exact ⟨[], by simp only [step]; split <;> simp [finish_factories, decorateNow_factories]⟩
   | reapply k h => exact ⟨[], by simp only [step]; split <;> simp [finish_factories, applyNow_factories]⟩
   | call h k => exact ⟨[], by simp only [step]; split <;> simp⟩
+  | subclass h => obtain ⟨m, t, _, _, hf, _⟩ := subclass_fields s h; exact ⟨[], by simp [hf]⟩
+  | callm h m v k => exact ⟨[], by simp [callm_state]⟩
   | _ => exact ⟨[], by simp [step]⟩
 
 theorem exec_factories_prefix (s : St) (ops : List Op) : ∃ extra, (exec s ops).factories = s.factories ++ extra := by
@@ -331,11 +354,11 @@ theorem read_at_application (s : St) (pre mid post : List Op) (d : Deco) (t : Ta
   have h2 := exec_preserves _ post _ _ h1
   simp only [step, h2, callObs_closedMode]
 
-example : lastObs (init none) [.disable, .factory .pedantic, .enable, .apply 0 ⟨false, true⟩, .disable, .call 0 .positional]
+example : lastObs (init none) [.disable, .factory .pedantic, .enable, .apply 0 ⟨false, true, false⟩, .disable, .call 0 .positional]
     = some (.called true false false) := by decide
-example : lastObs (init none) [.disable, .decorate .pedanticClass ⟨true, true⟩, .enable, .call 0 .positional]
+example : lastObs (init none) [.disable, .decorate .pedanticClass ⟨true, true, false⟩, .enable, .call 0 .positional]
     = some (.called false false false) := by decide
-example : lastObs (init (some "0")) [.unsetenv, .decorate .timerClass ⟨true, false⟩, .disable, .setenv "0", .call 0 .good]
+example : lastObs (init (some "0")) [.unsetenv, .decorate .timerClass ⟨true, false, false⟩, .disable, .setenv "0", .call 0 .good]
     = some (.called false true false) := by decide
 
 /-! ## 3b. the same function object handed to a decorator again -/
@@ -365,6 +388,8 @@ theorem step_targets_prefix (s : St) (op : Op) : ∃ extra, (step s op).1.target
     · exact ⟨[none], by simp [finish_targets]⟩
     · rename_i t _; exact ⟨[some t], by simp [applyNow_targets]⟩
   | call h k => exact ⟨[], by simp only [step]; split <;> simp⟩
+  | subclass h => obtain ⟨m, t, _, ht, _, _⟩ := subclass_fields s h; exact ⟨[t], ht⟩
+  | callm h m v k => exact ⟨[], by simp [callm_state]⟩
   | _ => exact ⟨[], by simp [step]⟩
 
 theorem exec_targets_prefix (s : St) (ops : List Op) : ∃ extra, (exec s ops).targets = s.targets ++ extra := by
@@ -400,6 +425,8 @@ theorem step_aligned (s : St) (op : Op) (ha : Aligned s) : Aligned (step s op).1
     · obtain ⟨m, hm⟩ := finish_handles s .noRow; simp [finish_targets, hm, ha]
     · rename_i t _; obtain ⟨m, hm⟩ := applyNow_handles s k t; simp [applyNow_targets, hm, ha]
   | call h k => simp only [step]; split <;> simpa using ha
+  | subclass h => obtain ⟨m, t, hm, ht, _, _⟩ := subclass_fields s h; simp [hm, ht, ha]
+  | callm h m v k => simpa [callm_state] using ha
   | _ => simpa [step] using ha
 
 theorem exec_aligned (s : St) (ops : List Op) (ha : Aligned s) : Aligned (exec s ops) := by
@@ -459,14 +486,189 @@ theorem first_result_unaffected_by_redecoration (s : St) (pre mid post : List Op
 
 -- decorate while on, switch off, decorate the same function again: identity, and no checks on the new result;
 -- the first wrapper keeps checking; switch on and decorate a third time: checks
-example : run (init none) [.decorate .pedantic ⟨false, true⟩, .disable, .redecorate .pedantic 0, .call 1 .wrongType, .call 0 .wrongType,
+example : run (init none) [.decorate .pedantic ⟨false, true, false⟩, .disable, .redecorate .pedantic 0, .call 1 .wrongType, .call 0 .wrongType,
       .enable, .redecorate .pedanticDoc 0, .call 2 .positional]
     = [.decorated false true, .none, .decorated true true, .called false false false, .called true false false,
        .none, .decorated false true, .called true false false] := by decide
-example : run (init (some "0")) [.factory .pedantic, .decorate .pedantic ⟨false, false⟩, .enable, .reapply 0 0, .call 1 .positional, .call 0 .positional]
+example : run (init (some "0")) [.factory .pedantic, .decorate .pedantic ⟨false, false, false⟩, .enable, .reapply 0 0, .call 1 .positional, .call 0 .positional]
     = [.none, .decorated true true, .none, .decorated false true, .called true false false, .called false false false] := by decide
 -- a class is changed in place by its decorators: handing the same class object in again is outside the model
-example : run (init none) [.decorate .traceClass ⟨true, true⟩, .redecorate .traceClass 0] = [.decorated true false, .bad] := by decide
+example : run (init none) [.decorate .traceClass ⟨true, true, false⟩, .redecorate .traceClass 0] = [.decorated true false, .bad] := by decide
+
+/-! ## 3c. sub classes of decorated classes: inherited members, reached through the sub class and through its instances -/
+
+/-- what a member of a class shows when it is reached — through the class object or an instance, of the decorated class
+    itself or of any class derived from it — as a function of the switch **when the base class was decorated** only -/
+def frozenMember (en : Bool) (d : Deco) (t : Target) (m : Member) (v : Via) (k : CallKind) : Obs :=
+  if !hasMember t m then .bad
+  else if d.onClass != t.isClass then .bad
+  else if !en then .called false false false
+  else if d.requiresDoc && !t.hasDoc then .bad
+  else effObsM d.effect m v k
+
+theorem callObsM_closedMode (d : Deco) (t : Target) (en : Bool) (now : Option Bool) (m : Member) (v : Via) (k : CallKind)
+    (hm : hasMember t m = true) :
+    callObsM (closedMode d t en) now m v k = frozenMember en d t m v k := by
+  unfold closedMode closed frozenMember
+  by_cases h1 : (d.onClass != t.isClass) = true
+  · simp [h1, hm, callObsM]
+  · cases en
+    · simp [h1, hm, callObsM]
+    · by_cases h2 : (d.requiresDoc && !t.hasDoc) = true
+      · simp [h1, h2, hm, callObsM]
+      · simp [h1, h2, hm, callObsM]
+
+/-- when does a decoration produce a live class / callable -/
+theorem closedMode_live (d : Deco) (t : Target) (en : Bool) :
+    closedMode d t en ≠ .dead ↔ d.onClass = t.isClass ∧ (en = false ∨ (d.requiresDoc && !t.hasDoc) = false) := by
+  unfold closedMode closed
+  by_cases h1 : d.onClass = t.isClass
+  · cases en
+    · simp [h1]
+    · by_cases h2 : (d.requiresDoc && !t.hasDoc) = true
+      · simp [h1, h2]
+      · simp [h1, h2]
+  · have : (d.onClass != t.isClass) = true := by simpa using h1
+    simp [this, h1]
+
+/-- handle `h` stands for a class described by `t` whose members behave as `m` says -/
+def Carries (s : St) (h : Nat) (t : Target) (m : Mode) : Prop := s.handles[h]? = some m ∧ s.targets[h]? = some (some t)
+
+/-- nothing that happens later changes what a handle carries -/
+theorem carries_exec {s : St} {h : Nat} {t : Target} {m : Mode} (hc : Carries s h t m) (ops : List Op) :
+    Carries (exec s ops) h t m :=
+  ⟨exec_preserves s ops h m hc.1, exec_preserves_target s ops h (some t) hc.2⟩
+
+theorem carries_decorate (s : St) (ha : Aligned s) (d : Deco) (t : Target) :
+    Carries (step s (.decorate d t)).1 s.handles.length t (closedMode d t (enabledAt s.env)) := by
+  constructor
+  · simp [decorate_handles]
+  · have hl : s.handles.length = s.targets.length := ha.symm
+    simp [step, decorateNow_targets, hl]
+
+/-- **a sub class inherits the decided members**: deriving a class from a live class handle — at any time — yields a handle
+    that carries exactly what its base carries -/
+theorem carries_subclass (s : St) (ha : Aligned s) (h : Nat) (t : Target) (m : Mode) (hc : Carries s h t m)
+    (htc : t.isClass = true) (hm : m ≠ .dead) :
+    (step s (.subclass h)).2 = .derived ∧ Carries (step s (.subclass h)).1 s.handles.length t m := by
+  have hne : (m != Mode.dead) = true := by simpa using hm
+  have hl : s.handles.length = s.targets.length := ha.symm
+  obtain ⟨h1, h2⟩ := hc
+  refine ⟨by simp [step, h1, h2, htc, hne], ?_, ?_⟩
+  · simp [step, h1, h2, htc, hne, push]
+  · simp [step, h1, h2, htc, hne, push, hl]
+
+/-- a member reached through a handle that carries the result of a decoration -/
+theorem callm_carried (s : St) (h : Nat) (d : Deco) (t : Target) (en : Bool) (hc : Carries s h t (closedMode d t en))
+    (m : Member) (v : Via) (k : CallKind) :
+    (step s (.callm h m v k)).2 = frozenMember en d t m v k := by
+  obtain ⟨h1, h2⟩ := hc
+  by_cases hm : hasMember t m = true
+  · simp [step, h1, h2, hm, callObsM_closedMode]
+  · have : hasMember t m = false := by simpa using hm
+    simp [step, h1, h2, this, frozenMember]
+
+theorem call_carried (s : St) (h : Nat) (d : Deco) (t : Target) (en : Bool) (hc : Carries s h t (closedMode d t en)) (k : CallKind) :
+    (step s (.call h k)).2 = frozenCall en d t k := by
+  simp [step, hc.1, callObs_closedMode]
+
+/-- a line of descent of any depth: run a history, derive a sub class from the current class, run another history, derive a
+    sub class from that sub class, … (the operations, and the state / handle they end in) -/
+def descendOps : St → Nat → List (List Op) → List Op
+  | _, _, [] => []
+  | s, h, seg :: rest =>
+    seg ++ [.subclass h] ++ descendOps (step (exec s seg) (.subclass h)).1 (exec s seg).handles.length rest
+
+def descendEnd : St → Nat → List (List Op) → St × Nat
+  | s, h, [] => (s, h)
+  | s, h, seg :: rest => descendEnd (step (exec s seg) (.subclass h)).1 (exec s seg).handles.length rest
+
+theorem exec_descend (s : St) (h : Nat) (segs : List (List Op)) : exec s (descendOps s h segs) = (descendEnd s h segs).1 := by
+  induction segs generalizing s h with
+  | nil => rfl
+  | cons seg rest ih => simp [descendOps, descendEnd, exec_append, exec, ih]
+
+theorem carries_descend (s : St) (ha : Aligned s) (h : Nat) (t : Target) (m : Mode) (hc : Carries s h t m)
+    (htc : t.isClass = true) (hm : m ≠ .dead) (segs : List (List Op)) :
+    Carries (descendEnd s h segs).1 (descendEnd s h segs).2 t m ∧ Aligned (descendEnd s h segs).1 := by
+  induction segs generalizing s h with
+  | nil => exact ⟨hc, ha⟩
+  | cons seg rest ih =>
+    have ha1 := exec_aligned s seg ha
+    have hc1 := carries_exec hc seg
+    exact ih _ (step_aligned _ _ ha1) _ (carries_subclass _ ha1 h t m hc1 htc hm).2
+
+/-- **C09, read at decoration — inherited members, all histories, any depth of inheritance.**  Start in any state with recorded
+    targets (e.g. the initial one), run any history `pre`, apply any class decorator of the property to a class (state `s1`: the
+    switch is read HERE), then any line of descent `segs` — histories (toggles, other decorations, calls, other sub classes, …)
+    each followed by deriving a sub class from the latest class of the line; `segs = []` is the decorated class itself — then any
+    history `post`, then reach any member (instance method, class method, static method, property getter / setter) through the
+    last class of the line or through an instance of it and call it: what is observed depends on the value of the variable at
+    the decoration of the base class and on nothing else — not on when the sub classes were created, not on when they were
+    used for the first time, not on any toggle in `segs` or `post`. -/
+theorem read_at_decoration_inherited (s : St) (ha : Aligned s) (pre post : List Op) (segs : List (List Op)) (d : Deco) (t : Target)
+    (m : Member) (v : Via) (k : CallKind) (htc : t.isClass = true)
+    (hlive : closedMode d t (enabledAt (exec s pre).env) ≠ .dead) :
+    let s1 := exec s pre
+    let s2 := (step s1 (.decorate d t)).1
+    lastObs s (pre ++ [.decorate d t] ++ descendOps s2 s1.handles.length segs ++ post
+                ++ [.callm (descendEnd s2 s1.handles.length segs).2 m v k])
+      = some (frozenMember (enabledAt s1.env) d t m v k) := by
+  intro s1 s2
+  rw [lastObs_snoc, exec_append, exec_append, exec_append]
+  have e1 : exec (exec s pre) [.decorate d t] = s2 := rfl
+  rw [e1, exec_descend]
+  have ha1 : Aligned s1 := exec_aligned s pre ha
+  have hc := carries_decorate s1 ha1 d t
+  have hd := (carries_descend s2 (step_aligned _ _ ha1) _ t _ hc htc hlive segs).1
+  exact congrArg some (callm_carried _ _ d t _ (carries_exec hd post) m v k)
+
+/-- the same for the plain call of the method `m` of a new instance (`call`) through the last class of the line -/
+theorem read_at_decoration_inherited_call (s : St) (ha : Aligned s) (pre post : List Op) (segs : List (List Op)) (d : Deco)
+    (t : Target) (k : CallKind) (htc : t.isClass = true) (hlive : closedMode d t (enabledAt (exec s pre).env) ≠ .dead) :
+    let s1 := exec s pre
+    let s2 := (step s1 (.decorate d t)).1
+    lastObs s (pre ++ [.decorate d t] ++ descendOps s2 s1.handles.length segs ++ post
+                ++ [.call (descendEnd s2 s1.handles.length segs).2 k])
+      = some (frozenCall (enabledAt s1.env) d t k) := by
+  intro s1 s2
+  rw [lastObs_snoc, exec_append, exec_append, exec_append]
+  have e1 : exec (exec s pre) [.decorate d t] = s2 := rfl
+  rw [e1, exec_descend]
+  have ha1 : Aligned s1 := exec_aligned s pre ha
+  have hc := carries_decorate s1 ha1 d t
+  have hd := (carries_descend s2 (step_aligned _ _ ha1) _ t _ hc htc hlive segs).1
+  exact congrArg some (call_carried _ _ d t _ (carries_exec hd post) k)
+
+/-- reaching a member never changes the state (in particular: no decision is taken on first access) — so "used for the first
+    time before or after a toggle" cannot matter: two histories that differ only in member calls end in the same state -/
+theorem first_use_is_no_event (s : St) (h : Nat) (m : Member) (v : Via) (k : CallKind) (ops : List Op) :
+    run s (.callm h m v k :: ops) = (step s (.callm h m v k)).2 :: run s ops := by
+  simp [run, callm_state]
+
+-- the missed scenario: class with a class method decorated while on, switch off, class method reached for the first time
+-- through a sub class that was not used before (created before / after the toggle), then on again
+example : run (init none) [.decorate .pedanticClass ⟨true, true, true⟩, .subclass 0, .disable, .subclass 0,
+      .callm 1 .classMethod .cls .wrongType, .callm 2 .classMethod .cls .wrongType, .callm 2 .classMethod .inst .positional,
+      .enable, .subclass 1, .callm 3 .staticMethod .inst .wrongType, .callm 3 .propGet .inst .wrongType, .callm 3 .propSet .cls .good]
+    = [.decorated true false, .derived, .none, .derived, .called true false false, .called true false false, .called true false false,
+       .none, .derived, .called true false false, .called true false false, .called false false false] := by decide
+-- decorated while off: nothing is imposed on the sub class either, whatever the switch says later
+example : run (init (some "0")) [.decorate (.forAll .pedantic) ⟨true, true, true⟩, .enable, .subclass 0, .callm 1 .classMethod .cls .wrongType,
+      .callm 1 .method .inst .positional]
+    = [.decorated true true, .none, .derived, .called false false false, .called false false false] := by decide
+-- hypotheses of `read_at_decoration_inherited` are met by a concrete two-level line of descent
+example : closedMode .pedanticClassDoc ⟨true, true, true⟩ (enabledAt (exec (init none) [.enable]).env) ≠ .dead := by decide
+example : lastObs (init none) ([.enable] ++ [.decorate .pedanticClassDoc ⟨true, true, true⟩]
+      ++ descendOps (step (exec (init none) [.enable]) (.decorate .pedanticClassDoc ⟨true, true, true⟩)).1 0 [[.disable], [.enable, .disable]]
+      ++ [.setenv "0"] ++ [.callm 2 .classMethod .cls .wrongType]) = some (.called true false false) := by decide
+-- a function, or a decoration that raised, has no sub class; a class without the member: `bad`
+example : run (init none) [.decorate .pedantic ⟨false, true, false⟩, .subclass 0, .decorate .pedanticClassDoc ⟨true, false, true⟩, .subclass 2,
+      .decorate .traceClass ⟨true, true, false⟩, .callm 4 .classMethod .cls .good, .callm 4 .method .cls .good]
+    = [.decorated false true, .bad, .decoRaised, .bad, .decorated true false, .bad, .called false true false] := by decide
+-- trace / timer / foreign wrappers: class and static methods reached through an instance raise a TypeError (finding of C18)
+example : run (init none) [.decorate .traceClass ⟨true, true, true⟩, .subclass 0, .callm 1 .staticMethod .inst .good, .callm 1 .staticMethod .cls .good]
+    = [.decorated true false, .derived, .callError, .called false true false] := by decide
 
 /-! ## 4. the model satisfies the specification on every history -/
 
@@ -561,6 +763,14 @@ theorem call_sim (m : Mode) (h : SHandle) (hm : hrel m h) (now : Option Bool) (k
   | dead => subst hm; rfl
   | unclaimed => rfl
 
+theorem callm_sim (md : Mode) (h : SHandle) (hm : hrel md h) (now : Option Bool) (m : Member) (v : Via) (k : CallKind) :
+    agrees (callObsM md now m v k) (specCallM h m v k) = true := by
+  cases h with
+  | identity => subst hm; rfl
+  | active e => subst hm; cases e <;> cases m <;> cases v <;> cases k <;> rfl
+  | dead => subst hm; rfl
+  | unclaimed => rfl
+
 theorem decorateNow_sim (s : St) (ss : SSt) (r : Rel s ss) (d : Deco) (t : Target) :
     Rel (decorateNow s d t).1 (specDecorate ss d t).1 ∧ agrees (decorateNow s d t).2 (specDecorate ss d t).2 = true := by
   simp only [decorateNow, enabled_exact]
@@ -624,6 +834,53 @@ theorem step_sim (s : St) (ss : SSt) (r : Rel s ss) (op : Op) :
     rcases HR_get _ _ h r.hs with ⟨h1, h2⟩ | ⟨m, sh, h1, h2, hm⟩
     · simp only [h1, h2]; exact ⟨r, by decide⟩
     · simp only [h1, h2]; exact ⟨r, call_sim m sh hm _ k⟩
+  | subclass h =>
+    simp only [step, specStep, ← r.tg]
+    have dead : Rel (record none (push s .dead, Obs.bad)).1 (srecord none (spush ss .dead, SObs.exact .bad)).1 :=
+      rel_record none (push s .dead, Obs.bad) (spush ss .dead, SObs.exact .bad) (rel_push _ _ _ _ r rfl)
+    rcases HR_get _ _ h r.hs with ⟨h1, h2⟩ | ⟨m, sh, h1, h2, hm⟩
+    · simp only [h1, h2]; exact ⟨dead, rfl⟩
+    · simp only [h1, h2]
+      cases ht : s.targets[h]? with
+      | none => exact ⟨dead, rfl⟩
+      | some ot =>
+        cases ot with
+        | none => exact ⟨dead, rfl⟩
+        | some t =>
+          by_cases hc : t.isClass = true
+          · simp only [hc, ↓reduceIte]
+            cases sh with
+            | identity =>
+              subst hm
+              exact ⟨rel_record (some t) (push s .plain, Obs.derived) (spush ss .identity, SObs.exact .derived) (rel_push _ _ _ _ r rfl), rfl⟩
+            | active e =>
+              subst hm
+              exact ⟨rel_record (some t) (push s (.frozen e), Obs.derived) (spush ss (.active e), SObs.exact .derived) (rel_push _ _ _ _ r rfl), rfl⟩
+            | dead =>
+              subst hm
+              exact ⟨rel_record (some t) (push s .dead, Obs.bad) (spush ss .dead, SObs.exact .bad) (rel_push _ _ _ _ r rfl), rfl⟩
+            | unclaimed =>
+              by_cases hd : m = .dead
+              · subst hd
+                exact ⟨rel_record (some t) (push s .dead, Obs.bad) (spush ss .unclaimed, SObs.unclaimed) (rel_push _ _ _ _ r trivial), rfl⟩
+              · have : (m != Mode.dead) = true := by simpa using hd
+                simp only [this, ↓reduceIte]
+                exact ⟨rel_record (some t) (push s m, Obs.derived) (spush ss .unclaimed, SObs.unclaimed) (rel_push _ _ _ _ r trivial), rfl⟩
+          · simp only [hc, Bool.false_eq_true, ↓reduceIte]; exact ⟨dead, rfl⟩
+  | callm h m v k =>
+    simp only [step, specStep, ← r.tg]
+    rcases HR_get _ _ h r.hs with ⟨h1, h2⟩ | ⟨md, sh, h1, h2, hm⟩
+    · simp only [h1, h2]; exact ⟨r, by decide⟩
+    · simp only [h1, h2]
+      cases ht : s.targets[h]? with
+      | none => exact ⟨r, rfl⟩
+      | some ot =>
+        cases ot with
+        | none => exact ⟨r, rfl⟩
+        | some t =>
+          by_cases hc : hasMember t m = true
+          · simp only [hc, ↓reduceIte]; exact ⟨r, callm_sim md sh hm _ m v k⟩
+          · simp only [hc, Bool.false_eq_true, ↓reduceIte]; exact ⟨r, by decide⟩
 
 theorem run_sim (s : St) (ss : SSt) (r : Rel s ss) (ops : List Op) : agreesAll (run s ops) (specRun ss ops) = true := by
   induction ops generalizing s ss with
@@ -639,7 +896,7 @@ theorem run_refines_spec (e0 : Option String) (ops : List Op) :
     agreesAll (run (init e0) ops) (specRun (sinit e0) ops) = true :=
   run_sim (init e0) (sinit e0) ⟨envRel_same _, rfl, by simp [init, sinit, HR], rfl⟩ ops
 
-example : specRun (sinit none) [.disable, .decorate .pedantic ⟨false, false⟩, .enable, .call 0 .wrongType, .decorate .pedantic ⟨false, true⟩, .call 1 .wrongType]
+example : specRun (sinit none) [.disable, .decorate .pedantic ⟨false, false, false⟩, .enable, .call 0 .wrongType, .decorate .pedantic ⟨false, true, false⟩, .call 1 .wrongType]
     = [.exact .none, .exact (.decorated true true), .exact .none, .exact (.called false false false), .enabledDeco, .exact (.called true false false)] := by decide
 
 end PedVerif.Switch
